@@ -317,6 +317,19 @@ fn segment_pool(r: &mut Rng, t: &DTy) -> Vec<Vec<u8>> {
 }
 
 pub fn gen_acc(r: &mut Rng, thorough: bool, overflow: bool, out: &mut Vec<String>) {
+    // a chunk boundary right before a frame's sentinel, and the next chunk OPENS with that sentinel followed by a run
+    // of further zero bytes (an idle line / zero padding read through a fixed-size buffer): the pending frame is
+    // delivered, every further zero is an (empty) frame of its own
+    for zeros in [1usize, 2, 7, 8, 9, 16, 33] {
+        for (n, t, body) in [(8usize, DTy::U(8), vec![0x02u8, 0x2A]), (16, DTy::Tuple(vec![DTy::U(8), DTy::U(16)]), vec![0x04, 0x07, 0x80, 0x01]), (64, DTy::Bytes, vec![0x04, 0x02, 0x11, 0x22])] {
+            let mut second = vec![0u8; zeros];
+            second.extend_from_slice(&body);
+            second.push(0);
+            out.push(fmt_acc(n, &t, &[body.clone(), second.clone()]));
+            out.push(fmt_acc(n, &t, &[body[..1].to_vec(), body[1..].to_vec(), second.clone()]));
+            out.push(fmt_acc(n, &t, &[vec![0u8; zeros], body.clone(), vec![0u8; zeros]]));
+        }
+    }
     // an UNTERMINATED tail that fills the buffer exactly (N zero-free bytes and no sentinel yet): it fits, so it is
     // buffered without any result - delivered whole, in every chunking, after a frame, and byte by byte
     for n in [1usize, 2, 3, 4, 5, 8] {
